@@ -160,6 +160,12 @@ def dec_tokens(toks: list[str], i: int = 0):
         return bytes.fromhex(rest), i + 1
     if c == "B":
         return bytearray(bytes.fromhex(rest)), i + 1
+    if c in "KP":
+        return KeyObj(c == "P", bytes.fromhex(rest)), i + 1
+    if c == "D":
+        return datetime.timedelta(seconds=int(rest)), i + 1
+    if c == "O":
+        return Opaque(int(rest)), i + 1
     raise ValueError(f"cannot decode token {t!r}")
 
 
@@ -252,3 +258,21 @@ class Driver:
         with ThreadPoolExecutor(max_workers=self.workers) as ex:
             parts = list(ex.map(lambda b: self._run_chunk(lines[b[0]:b[1]]), bounds))
         return [x for p in parts for x in p]
+
+
+def dec_line(line: str):
+    """protocol request line -> (op, args) for the ops whose arguments are plain values; None for the others"""
+    toks = line.split(" ")
+    op = toks[0]
+    if op in ("check", "is"):
+        v, _ = dec_tokens(toks, 2)
+        return op, [toks[1], v]
+    if op == "parse":
+        return op, [bytes.fromhex(toks[1])]
+    if op in ("ser", "vsig", "vgpg", "vsignable", "vdeleg", "vroot", "wrap", "sign", "signrepofile"):
+        args, i = [], 1
+        while i < len(toks):
+            v, i = dec_tokens(toks, i)
+            args.append(v)
+        return op, args
+    return None
